@@ -67,16 +67,6 @@ func (v *srcView) within(rng hcl.Range) []cfgcorpus.Tok {
 	return out
 }
 
-func (v *srcView) countWithin(rng hcl.Range) int {
-	n := 0
-	for i := range v.toks {
-		if v.ranges[i][0] >= rng.Start.Byte && v.ranges[i][1] <= rng.End.Byte && v.ranges[i][0] < v.ranges[i][1] {
-			n++
-		}
-	}
-	return n
-}
-
 func significant(ts hclwrite.Tokens) []cfgcorpus.Tok {
 	var out []cfgcorpus.Tok
 	for _, t := range ts {
@@ -476,6 +466,8 @@ func main() {
 			for k, v := range counters.Snapshot() {
 				m[k] = v
 			}
+			ty, pr, tr := cfgcorpus.AdjacencyCoverage()
+			m["base_token_types"], m["base_adjacent_type_pairs"], m["base_adjacent_type_triples"] = ty, pr, tr
 			return m
 		},
 		QuickBudget:    4 * 60e9,
